@@ -50,3 +50,34 @@ Example C10_example :
          [(0, 4); (23, 27)]
   = [32;32;48;46;49;52;49;52;46;32;46;46;46;46;46;10;50;48;32;32;46;46;46;56;56;32;55;50].
 Proof. vm_compute. reflexivity. Qed.
+
+(* ---- the clauses of the property read off the canonical layout (LayoutFacts.v): the layout is the rendering of
+   a list of cells (position, character); for every option value and every ascending list of shown pairs ---- *)
+Require LayoutFacts.
+(* every requested existing position is displayed with its digit *)
+Theorem C10_shown_is_displayed : forall R missing (nz : Z -> list Z) count_on shown p d, asc 0 shown -> In (p, d) shown ->
+  In (p, 48 + d) (LayoutFacts.cells R missing count_on shown).
+Proof. exact LayoutFacts.shown_is_displayed. Qed.
+(* every other displayed position shows the missing-digit rune, and nothing lies beyond the last shown digit *)
+Theorem C10_not_shown_is_missing : forall R missing (nz : Z -> list Z) count_on shown q ch,
+  In (q, ch) (LayoutFacts.cells R missing count_on shown) -> ~ In q (positions shown) -> ch = missing.
+Proof. exact LayoutFacts.not_shown_is_missing. Qed.
+Theorem C10_nothing_beyond : forall R missing (nz : Z -> list Z) count_on shown q ch,
+  In (q, ch) (LayoutFacts.cells R missing count_on shown) -> 0 <= q <= pmax shown.
+Proof. exact LayoutFacts.nothing_beyond. Qed.
+(* with labels displayed, rows without any shown digit are omitted *)
+Theorem C10_rows_have_a_shown_digit : forall R missing (nz : Z -> list Z) count_on shown q ch,
+  rows_on R count_on = true -> In (q, ch) (LayoutFacts.cells R missing count_on shown) ->
+  exists p, In p (positions shown) /\ p / R = q / R.
+Proof. exact LayoutFacts.rows_have_a_shown_digit. Qed.
+(* in front of a cell: at a row boundary a line feed (not at the very start) and the row starter of the cell's own
+   position (C10_label_is_position: its decimal numeral); at a column boundary exactly one space; else nothing *)
+Theorem C10_before_cell : forall R C zero_s nz first q, q <> 0 ->
+  cell_pre R C zero_s nz first q =
+  if (0 <? R) && (q mod R =? 0) then (if first then [] else [10]) ++ nz q
+  else if (0 <? C) && (canon R q mod C =? 0) then [32] else [].
+Proof. exact LayoutFacts.before_cell. Qed.
+Theorem C10_layout_is_cells : forall R C missing zero_s nz count_on shown,
+  layout R C missing zero_s nz count_on shown = render R C zero_s nz true (LayoutFacts.cells R missing count_on shown).
+Proof. exact LayoutFacts.layout_is_render. Qed.
+Print Assumptions C10_shown_is_displayed.
